@@ -148,3 +148,16 @@ class Poly:
             mon = "*".join(f"{v}^{e}" if e != 1 else v for v, e in m)
             parts.append(f"{c}" + ("*" + mon if mon else ""))
         return " + ".join(parts)
+
+
+def compose(poly, mapping):
+    """substitute polynomials (or numbers) for variables; variables not in mapping stay."""
+    out = Poly()
+    for m, c in poly.t.items():
+        term = Poly.const(c)
+        for var, e in m:
+            base = mapping.get(var, None)
+            base = Poly.var(var) if base is None else _lift(base)
+            term = term * (base ** e)
+        out = out + term
+    return out
